@@ -16,6 +16,12 @@ B_CALLS = re.compile(r"(core::str::<impl str>::len$|alloc::string::String::len$|
                      r"core::str::<impl str>::find$|core::str::<impl str>::rfind$|core::str::<impl str>::floor_char_boundary$)")
 
 
+def _item_call(c):
+    """calls that hand out one item of an iterator: next(), and the searching consumers that return an item (`find`, `nth`, `last`)"""
+    c = str(c)
+    return c.endswith("::next") or c.endswith("iterator::Iterator::find") or c.endswith("iterator::Iterator::nth") or c.endswith("iterator::Iterator::last")
+
+
 def join(a, b):
     if a is None:
         return b
@@ -91,7 +97,7 @@ class Dim:
     def _iter_item_dim(self, fn, e):
         """e = field .0 of (payload of) next() on some iterator: B for CharIndices, C for Enumerate<..Chars..>"""
         for x in expr_walk(e):
-            if x[0] == "call" and x[1] and x[1].endswith("::next"):
+            if x[0] == "call" and x[1] and _item_call(x[1]):
                 # find the call terminator to read the receiver type
                 for b, t, c in fn.calls():
                     if c == x[1]:
